@@ -488,10 +488,49 @@ def comment(rng):
     return '//' + ''.join(rng.choice(_CBODY + ['*/', '/*']) for _ in range(rng.choice([0, 1, 2]))).replace('\n', ' ').replace('\r', ' ') + '\n'
 
 
+# every fixed-string token of the language (the harness's own list: the decision which gaps may be empty must not
+# come from the implementation under test)
+_LITS = ['==', '!=', '<=', '>=', '->', '::', '<', '>', '=', '+', '-', '*', '/', '%', '|', '&', '^', '(', ')', '[', ']',
+         ',', ';', ':', '.', '?']
+
+
+def _wordch(c):
+    return c.isalnum() or c == '_' or ord(c) > 127
+
+
+def tight_ok(k, lx, nlx):
+    """may the lexeme `lx` of kind `k` be directly followed by the text `nlx` (no separator)?  The Python twin of
+    `tightOk` (lean/PyxModel/Oal/LexClass.lean, proved sufficient in Proofs/OalTight.lean: layout_irrelevant_tight),
+    conservative where they differ: a word must not be followed by a word character or `::`; a number neither by
+    those nor by a digit or `.`; a fraction neither by those nor by `e E + - f F l L`; `/` not by `*` or `/`; another
+    fixed-string token not by a character that continues a longer fixed-string token, `.` not by a digit; strings,
+    phrases and `end if` may be followed by anything."""
+    if not nlx:
+        return True
+    c, two = nlx[0], nlx[:2]
+    if k in ('STRING', 'TICKED_PHRASE', 'END_IF', 'END_FOR', 'END_WHILE'):
+        return True
+    if k == 'NUMBER':
+        return not (_wordch(c) or c.isdigit() or c == '.' or two == '::')
+    if k == 'FRACTION':
+        return not (_wordch(c) or c.isdigit() or c in '.eE+-fFlL' or two == '::')
+    if lx == '/':
+        return c not in '*/'
+    if lx in _LITS:
+        if lx == '.' and (c.isdigit() or ord(c) > 127):
+            return False
+        return not any(l.startswith(lx + c) for l in _LITS)
+    if _wordch(lx[-1]):                    # identifiers, keywords, namespaces
+        return not (_wordch(c) or two == '::')
+    return False
+
+
 def layout(toks, rng, mode):
     """tokens -> (text, tokens as they should be lexed).  mode 0: single spaces; 1: random white space;
     2: random white space, some comments, tight brackets; 3: a comment in (nearly) every gap, glued to the
-    token before it, to the token after it, or to both, often several comments and statements on one line"""
+    token before it, to the token after it, or to both, often several comments and statements on one line;
+    4: NOTHING between two tokens wherever `tight_ok` allows (`a+b`, `x=1;`, `a->B[R1]`, `f(p:1)`), one white-space
+    string elsewhere; 5: as 2, but every gap that `tight_ok` allows is left empty with probability 0.6"""
     out = []
     want = []
     n = len(toks)
@@ -511,6 +550,15 @@ def layout(toks, rng, mode):
             continue
         if mode == 2 and (k in _TIGHT or nk in _TIGHT) and rng.random() < 0.5:
             continue
+        if mode in (4, 5):
+            nlx = toks[i + 1][1]
+            if nk == 'NAMESPACE' and i + 2 < n and toks[i + 2][0] == 'DOUBLECOLON':
+                nlx = nlx + '::'
+            if tight_ok(k, lx, nlx) and (mode == 4 or rng.random() < 0.6):
+                continue
+            if mode == 4:
+                out.append(rng.choice(_WS))
+                continue
         if mode == 3:
             if rng.random() < 0.15:
                 out.append(' ')
@@ -524,7 +572,7 @@ def layout(toks, rng, mode):
             out.append(before + c + after)
             continue
         parts = [rng.choice(_WS)]
-        if mode == 2:
+        if mode in (2, 5):
             r = rng.random()
             if r < 0.25:
                 parts.append(comment(rng))
@@ -843,7 +891,7 @@ def gen_exhaustive(ctx, rounds):
         for mk in shapes:
             e = mk()
             n += 1
-            yield _case('exh3', wrap_expr(e, n + rnd, r), n * 131 + rnd, (n + rnd) % 4)
+            yield _case('exh3', wrap_expr(e, n + rnd, r), n * 131 + rnd, (n + rnd) % 6)
 
 
 def gen_spec(ctx):
@@ -853,20 +901,20 @@ def gen_spec(ctx):
     for i in range(16):
         for j in range(16):
             n += 1
-            yield {'fam': 'spec', 'spec': ['bb', i, j], 'lay': n, 'mode': n % 4}
+            yield {'fam': 'spec', 'spec': ['bb', i, j], 'lay': n, 'mode': n % 6}
     for u in range(6):
         for i in range(16):
             n += 1
-            yield {'fam': 'spec', 'spec': ['ub', u, i], 'lay': n, 'mode': n % 4}
-            yield {'fam': 'spec', 'spec': ['bu', i, u], 'lay': n + 7, 'mode': (n + 1) % 4}
+            yield {'fam': 'spec', 'spec': ['ub', u, i], 'lay': n, 'mode': n % 6}
+            yield {'fam': 'spec', 'spec': ['bu', i, u], 'lay': n + 7, 'mode': (n + 1) % 6}
         for v in range(6):
             n += 1
-            yield {'fam': 'spec', 'spec': ['uu', u, v], 'lay': n, 'mode': n % 4}
+            yield {'fam': 'spec', 'spec': ['uu', u, v], 'lay': n, 'mode': n % 6}
     for i in range(16):
         for j in range(16):
             n += 1
-            yield {'fam': 'spec', 'spec': ['bpb', i, j], 'lay': n, 'mode': n % 4}
-            yield {'fam': 'spec', 'spec': ['pbb', i, j], 'lay': n + 3, 'mode': (n + 1) % 4}
+            yield {'fam': 'spec', 'spec': ['bpb', i, j], 'lay': n, 'mode': n % 6}
+            yield {'fam': 'spec', 'spec': ['pbb', i, j], 'lay': n + 3, 'mode': (n + 1) % 6}
 
 
 def spec_case(spec):
@@ -907,7 +955,7 @@ def gen_random_expr(ctx, n):
     for i in range(n):
         r = rng.fork(i)
         e = rand_expr(r, r.choice([3, 4, 5, 6, 8]))
-        yield _case('rexpr', wrap_expr(e, i, r), i, r.choice([0, 1, 2, 2, 3]))
+        yield _case('rexpr', wrap_expr(e, i, r), i, r.choice([0, 1, 2, 2, 3, 4, 4, 5]))
 
 
 def gen_random_stmt(ctx, n):
@@ -918,7 +966,7 @@ def gen_random_stmt(ctx, n):
             blk = [rand_stmt(r, STMT_KINDS[i % len(STMT_KINDS)], 2, 2)]       # every production, several times
         else:
             blk = rand_block(r, r.choice([1, 2, 3]), r.choice([1, 2, 3]))
-        yield _case('rstmt', blk, i, r.choice([0, 1, 2, 2, 3, 3]))
+        yield _case('rstmt', blk, i, r.choice([0, 1, 2, 2, 3, 3, 4, 4, 5, 5]))
 
 
 def gen_kwnames(ctx, n):
@@ -935,7 +983,7 @@ def gen_kwnames(ctx, n):
             blk = [rand_stmt(r, STMT_KINDS[(i // 3) % len(STMT_KINDS)], 2, 2)]
         else:
             blk = rand_block(r, r.choice([1, 2]), r.choice([1, 2]))
-        yield _case('kwname', blk, i, r.choice([0, 1, 2, 3]))
+        yield _case('kwname', blk, i, r.choice([0, 1, 2, 3, 4, 5]))
 
 
 def gen_alt(ctx, n):
@@ -943,7 +991,7 @@ def gen_alt(ctx, n):
     rng = ctx.rng.fork('alt')
     for i in range(n):
         r = rng.fork(i)
-        yield {'fam': 'alt', 'alt': i % 5, 'lay': i, 'mode': r.choice([0, 1, 2, 3]), 'seed': i}
+        yield {'fam': 'alt', 'alt': i % 5, 'lay': i, 'mode': r.choice([0, 1, 2, 3, 4, 5]), 'seed': i}
 
 
 def alt_case(case, r):
